@@ -175,8 +175,11 @@ class FnWiring:
             base = self.ev(e.value, env, guards)
             if isinstance(e.slice, ast.Constant):
                 idx = e.slice.value
-            elif isinstance(e.slice, ast.Slice) or not any(isinstance(n_, ast.Name) and n_.id in env for n_ in ast.walk(e.slice)):
+            elif not any(isinstance(n_, ast.Name) and n_.id in env for n_ in ast.walk(e.slice)):
                 idx = S.unparse(e.slice)
+            elif isinstance(e.slice, ast.Slice):
+                # slice bounds computed from locals: named by their provenance, not by the variables
+                idx = ("slice",) + tuple(frozenset(self.ev(b, env, guards)) if b is not None else None for b in (e.slice.lower, e.slice.upper, e.slice.step))
             else:
                 idx = ("idx", frozenset(self.ev(e.slice, env, guards)))      # an index computed from locals: named by its provenance, not by the variable
             out = set()
@@ -617,6 +620,8 @@ def simplify(d):
     if k == "item":
         if isinstance(d[2], tuple) and d[2] and d[2][0] == "idx":
             return f"{simplify(d[1])}[" + "|".join(sorted(simplify(x) for x in d[2][1])) + "]"
+        if isinstance(d[2], tuple) and d[2] and d[2][0] == "slice":
+            return f"{simplify(d[1])}[" + ":".join("" if b is None else "|".join(sorted(simplify(x) for x in b)) for b in d[2][1:3]) + ("" if d[2][3] is None else ":" + "|".join(sorted(simplify(x) for x in d[2][3]))) + "]"
         return f"{simplify(d[1])}[{d[2]}]"
     if k == "binop":
         return f"({simplify(d[2])} {d[1]} {simplify(d[3])})"
